@@ -134,6 +134,8 @@ def model_decisions(case):
 def run(chk):
     quick = chk.tier == "quick"
     chk.lean_stage()
+    from props import c07_nested
+    c07_nested.run(chk, 80 if quick else 1500)
     n = 500 if quick else 12000
     cases = common.load_corpus("C07")
     for i in range(n):
@@ -282,6 +284,10 @@ def replay(chk, path):
     with open(path) as f:
         rp = json.load(f)
     c = rp["case"]
+    if c.get("kind") == "nested-retry":
+        from props import c07_nested
+        c07_nested.replay_case(c)
+        return 0
     r = enginerun.run_case(c["machine"], c["input"], {k: [tuple(o) for o in v] for k, v in c["plans"].items()},
                            max_data=c.get("max_data"))
     print("limit:", c.get("max_data"), "refused:", r.refusals, "cause text decides:", r.cause_text_decides)
